@@ -67,9 +67,21 @@ fn text_of(case: &Value, key: &str, slots_key: &str) -> String {
     concretise(&case[slots_key], &al)
 }
 
+/// Puts `s` into the caller's buffer after the buffer held - at the same address, with the same byte length - a text of
+/// another structure (single-byte letters) that was looked at in the same segmentation mode: whatever was remembered
+/// about that text must not be used for `s`.
+fn refill(buf: &mut String, s: &str, g: bool) {
+    buf.clear();
+    buf.push_str(&"x".repeat(s.len()));
+    let _ = guard(|| clean(buf, g));
+    buf.clear();
+    buf.push_str(s);
+}
+
 pub fn exec(case: &Value) -> Vec<Value> {
     let kind = get_str(case, "kind");
     let g = get_bool(case, "g");
+    let (mut b1, mut b2) = (String::with_capacity(1024), String::with_capacity(1024));
     let mut cp = Cp::new();
     let mut st = "ok".to_string();
     let mut fail = |what: &str, m: String| {
@@ -79,28 +91,32 @@ pub fn exec(case: &Value) -> Vec<Value> {
     };
     let rec = match kind {
         "clean" => {
-            let s = text_of(case, "s", "slots");
-            let v = cp.view(&s, g);
-            let cl = guard(|| clean(&s, g)).unwrap_or_else(|m| { fail("clean", m); String::new() });
+            let s0 = text_of(case, "s", "slots");
+            refill(&mut b1, &s0, g);
+            let s = b1.as_str();
+            let v = cp.view(s, g);
+            let cl = guard(|| clean(s, g)).unwrap_or_else(|m| { fail("clean", m); String::new() });
             let cl2 = guard(|| clean(&cl, g)).unwrap_or_else(|m| { fail("clean2", m); String::new() });
-            let wb = guard(|| word_boundaries(&s, g)).unwrap_or_else(|m| { fail("word_boundaries", m); vec![] });
-            let rm = guard(|| remove(&s, g)).unwrap_or_else(|m| { fail("remove", m); String::new() });
-            let fu = guard(|| full(&s, g)).unwrap_or_else(|m| { fail("full", m); String::new() });
+            let wb = guard(|| word_boundaries(s, g)).unwrap_or_else(|m| { fail("word_boundaries", m); vec![] });
+            let rm = guard(|| remove(s, g)).unwrap_or_else(|m| { fail("remove", m); String::new() });
+            let fu = guard(|| full(s, g)).unwrap_or_else(|m| { fail("full", m); String::new() });
             json!({"kind": kind, "g": g, "s": s, "v": v, "clean": cp.cps(&cl), "clean2": cp.cps(&cl2),
                    "wb": wb.iter().map(|(a, z)| json!([a, z])).collect::<Vec<_>>(),
                    "remove": cp.cps(&rm), "full": cp.cps(&fu)})
         }
         "pair" => {
-            let f = text_of(case, "from", "fslots");
-            let t = text_of(case, "to", "tslots");
-            let ops = guard(|| operations(&f, &t, g));
+            let (f0, t0) = (text_of(case, "from", "fslots"), text_of(case, "to", "tslots"));
+            refill(&mut b1, &f0, g);
+            refill(&mut b2, &t0, g);
+            let (f, t) = (b1.clone(), b2.clone());
+            let ops = guard(|| operations(&b1, &b2, g));
             let (ops_ok, ops_v): (bool, Vec<Operation>) = match ops {
                 Ok(Ok(o)) => (true, o),
                 Ok(Err(_)) => (false, vec![]),
                 Err(m) => { fail("operations", m); (false, vec![]) }
             };
             let rep = if ops_ok {
-                match guard(|| repair(&f, &ops_v, g)) {
+                match guard(|| repair(&b1, &ops_v, g)) {
                     Ok(Ok(s)) => json!({"ok": true, "cps": cp.cps(&s)}),
                     Ok(Err(_)) => json!({"ok": false, "cps": []}),
                     Err(m) => { fail("repair", m); json!({"ok": false, "cps": []}) }
@@ -114,7 +130,8 @@ pub fn exec(case: &Value) -> Vec<Value> {
         "repair" => {
             let s = text_of(case, "s", "slots");
             let ops: Vec<Operation> = case["ops"].as_array().unwrap().iter().map(|x| op_of(x.as_str().unwrap())).collect();
-            let rep = match guard(|| repair(&s, &ops, g)) {
+            refill(&mut b1, &s, g);
+            let rep = match guard(|| repair(&b1, &ops, g)) {
                 Ok(Ok(r)) => json!({"ok": true, "cps": cp.cps(&r)}),
                 Ok(Err(_)) => json!({"ok": false, "cps": []}),
                 Err(m) => { fail("repair", m); json!({"ok": false, "cps": []}) }
@@ -209,7 +226,8 @@ fn rand_ws_text(rng: &mut ChaCha8Rng, maxlen: usize, clean_only: bool) -> String
             ws = vec![" ", " ", "\t", "\n", "\r\n", "\r", "\u{000B}", "\u{000C}"];
         }
     }
-    let n = rng.random_range(0..=maxlen);
+    // one text in twenty-five is long (60-100 characters of changing byte widths: dozens of runs of equal width)
+    let n = if rng.random_bool(0.04) { rng.random_range(60..=100) } else { rng.random_range(0..=maxlen) };
     let mut s = String::new();
     let mut last_ws = true;
     for i in 0..n {
